@@ -71,6 +71,12 @@ class CodeGenModel:
             rn = [k for k, v in self.regs.items() if v == reg.lo][0]
             self.subexprs.append((e, rn))
             fo = self.frame.fields['offset']
+            if isinstance(e, Obj) and (e.cls in ('xcmp::VarRefExpr', 'xcmp::NumberExpr', 'xcmp::BooleanExpr', 'xcmp::StringExpr')
+                                      or e.fields.get('constValue') is not None):
+                # a leaf is loaded with one or two instructions and never touches the frame
+                self.cb.fields['instrs'].items.append(Obj('EXPR', {'expr': e, 'reg': rn, 'frame_offset': fo, 'leaf': True},
+                                                          'EXPR[%s->%s]' % (self.X.show(e), rn)))
+                return None
             # the sub-expression may push D >= 1 temporaries of its own and pops them again: interpret the real Frame methods
             D = I.sym('D%d' % len(self.subexprs), 32, True, 1, 1 << 10)
             inc = [m for m in I.idx.record('xcmp::Frame').methods if m.name == 'incOffset'][0]
@@ -184,7 +190,8 @@ def _const_var(X, name, v):
 def operand_kinds(M):
     X = M.X
     return [('var', lambda n: X.var(n)), ('call', lambda n: X.call('fn_' + n, [X.num(1)])),
-            ('subscript', lambda n: X.sub('arr_' + n, X.var(n))), ('op', lambda n: X.binop('PLUS', X.var(n), X.var(n + "'")))]
+            ('subscript', lambda n: X.sub('arr_' + n, X.var(n))), ('op', lambda n: X.binop('PLUS', X.var(n), X.var(n + "'"))),
+            ('notop', lambda n: X.unop('NOT', X.binop('LS', X.var(n), X.binop('PLUS', X.var(n), X.var(n + "'")))))]
 
 
 def gen_binary(idx, op, lkind, rkind, reg='A'):
@@ -291,7 +298,7 @@ def slot_accesses(M):
             base = 'A' if tk == 'LDAM' else 'B'
             continue
         if tk == 'EXPR':
-            out.append(('expr', None, d.fields['frame_offset'], d))
+            out.append(('leaf' if d.fields.get('leaf') else 'expr', None, d.fields['frame_offset'], d))
             base = None
             continue
         if tk in ('BR',) and d.cls == 'hexasm::InstrLabel':
@@ -336,8 +343,11 @@ def check_spills(M):
             exprs = [x for x in between if x[0] == 'expr']
             if j is None:
                 # a slot this template did not write: only the callee's return slot right after the call is legitimate
-                last_call = max([k for k, x in enumerate(acc[:i]) if x[0] in ('call', 'opr')] or [-1])
-                if any(x[0] == 'expr' for x in acc[last_call + 1:i]) or last_call < 0 and exprs:
+                def produces(x):
+                    return x[0] in ('call', 'opr') or (x[0] == 'expr' and isinstance(x[3].fields.get('expr'), Obj)
+                                                       and x[3].fields['expr'].cls == 'xcmp::CallExpr')
+                last_call = max([k for k, x in enumerate(acc[:i]) if produces(x)] or [-1])
+                if any(x[0] == 'expr' for x in acc[last_call + 1:i]):
                     problems.append('%s is read after a sub-expression was evaluated although this code never stored it (%s)' % (slot, d.name))
                 continue
             if slot[0] == 'fb' and slot[1] is not None:
@@ -435,7 +445,7 @@ def rule_frames(rep, idx):
             pr = check_spills(M)
             rep.add('R8', key, not pr, where, '; '.join(pr) if pr else 'template %s' % [t for t, _ in M.instrs()])
     # assignment through a subscript
-    for rk in ('var', 'call', 'op'):
+    for rk in ('var', 'call', 'op', 'notop'):
         M = CodeGenModel(idx, 'A')
         for n in ('a', 'b', "a'", "b'", 'i'):
             M.symbol(n, 'VAR', 'f')
